@@ -3,8 +3,10 @@ C01 — "the result depends only on what is declared, not on how it is written":
 
 `document_faithful_variants`: any sequence of element forms (`EForm`, C02Doc.lean) that declare the same blueprints as the
 elements of a covered document - under any spacing - is parsed to the database that document declares.  Every further
-`EForm` instance with the same `elem` is thereby a proved spelling variant.  First instance: the keyword `Table` in any
-mixture of upper and lower case (`tableEK`, `tableRule_okK`).
+`EForm` instance with the same `elem` is thereby a proved spelling variant (`document_faithful_each_variant`).  Instances:
+the keywords `Table`, `Enum`, `Ref`, `TableGroup`, `Project`, `Note` in any mixture of upper and lower case (`tableEK`, `enumEK`,
+`refEK`, `groupEK`, `projectEK`, `stickyEK`; the facts the proofs need of a spelling are checked over ALL spellings by `decide +kernel`), and table
+names bare or in double quotes (`Spells`).
 -/
 import PyDBMLProofs.Props.C01LayoutDoc
 namespace PyDBML
@@ -256,6 +258,29 @@ theorem document_faithful_variants (F : ColForm σ) (ap : Bool) (d : DocSpec σ)
   simp only []
   rw [d.build F ap h]
 
+/-- `e'` is a spelling variant of `e`: it declares the same blueprint -/
+def EForm.VariantOf {ap : Bool} (e e' : EForm ap) : Prop := e'.elem = e.elem
+
+/-- element by element, `es'` spells what `es` declares -/
+inductive AllVariants {ap : Bool} : List (EForm ap) → List (EForm ap) → Prop
+  | nil : AllVariants [] []
+  | cons {e e' : EForm ap} {es es' : List (EForm ap)} (h : e.VariantOf e') (t : AllVariants es es') : AllVariants (e :: es) (e' :: es')
+
+theorem variants_elems {ap : Bool} : ∀ (es es' : List (EForm ap)), AllVariants es es' →
+    es'.map (·.elem) = es.map (·.elem) := by
+  intro es es' h
+  induction h with
+  | nil => rfl
+  | cons hab _ ih => simp only [List.map_cons, ih]; rw [show _ = _ from hab]
+
+/-- **C01, element by element**: replace every element of a covered document by any of its spelling variants (`tableEK`,
+    `enumEK`, `refEK`, `groupEK`, `projectEK`, `stickyEK`, or the renderer's own form), put any number of empty lines between them and
+    any number of line breaks at the end: the parse is the database the document declares. -/
+theorem document_faithful_each_variant (F : ColForm σ) (ap : Bool) (d : DocSpec σ) (h : DocOK F ap d) (gaps : List Nat) (m : Nat)
+    (e' : EForm ap) (r' : List (EForm ap)) (hv : AllVariants (d.forms F ap h) (e' :: r')) :
+    Build.parse ap (docTextGT m e' ((gaps ++ List.replicate r'.length 0).zip r')) = .ok (d.db F ap) :=
+  document_faithful_variants F ap d h gaps m e' r' (variants_elems _ _ hv)
+
 /-- **keyword case and the spelling of table names are inert**: the tables of a covered document without other elements, each
     written with its own spelling `p.2.1` of the keyword (any of the 32 mixtures of upper and lower case) and its own spelling
     `p.2.2` of its name (in double quotes, or bare when it consists of name characters), under any spacing, are parsed to the
@@ -400,6 +425,288 @@ theorem enumEK_text (ap : Bool) (e : ESpecN) (kw : Str) (hkw : KwFactsE kw = tru
   simp [EForm.text, enumEK, commentText, enumTextK]
 
 example : lit "ENUM" ∈ kwEnum ∧ kwEnum.length = 16 := by decide +kernel
+
+/-! ### the keywords `Ref`, `Project` and `Note` in any case -/
+
+/-- what the proofs need of a spelling `kw` of the keyword `w`, the first letters of the rules tried before it being `others` -/
+def KwFactsG (w : Str) (others : List Char) (kw : Str) : Bool :=
+  kw.length == w.length && startsWithCaseless kw w && kw.all (fun c => c != '\t')
+    && (match kw with
+        | k :: _ => !isWs k && k != '\n' && k != '/' && decide (k.toNat < 128)
+            && others.all (fun o => !(pyUpper1 o == pyUpper1 k))
+        | [] => false)
+
+theorem kwFactsG_elim (w : Str) (others : List Char) (kw : Str) (h : KwFactsG w others kw = true) :
+    kw.length = w.length ∧ startsWithCaseless kw w = true ∧ (∀ c ∈ kw, c ≠ '\t') ∧
+      ∃ k ks, kw = k :: ks ∧ isWs k = false ∧ k ≠ '\n' ∧ k ≠ '/' ∧ k.toNat < 128
+        ∧ ∀ o ∈ others, (pyUpper1 o == pyUpper1 k) = false := by
+  unfold KwFactsG at h
+  cases kw with
+  | nil => simp at h
+  | cons k ks =>
+    simp only [Bool.and_eq_true, beq_iff_eq, List.all_eq_true, bne_iff_ne, ne_eq, Bool.not_eq_true',
+      decide_eq_true_eq] at h
+    obtain ⟨⟨⟨h1, h2⟩, h3⟩, ⟨⟨⟨⟨h4, h5⟩, h6⟩, h7⟩, h8⟩⟩ := h
+    exact ⟨h1, h2, h3, k, ks, rfl, h4, h5, h6, h7, h8⟩
+
+theorem swc_head_false (x : Char) (r : Str) (s : String) (k : Char) (ks : Str) (hs : s.toList = k :: ks)
+    (h : (pyUpper1 k == pyUpper1 x) = false) : startsWithCaseless (x :: r) s.toList = false := swc_ne x r s k ks hs h
+
+def kwRef : List Str := caseVariants (lit "ref")
+def kwProject : List Str := caseVariants (lit "project")
+def kwNote : List Str := caseVariants (lit "note")
+
+theorem kwRef_facts : ∀ kw ∈ kwRef, KwFactsG (lit "ref") ['t'] kw = true := by decide +kernel
+theorem kwProject_facts : ∀ kw ∈ kwProject, KwFactsG (lit "project") ['t', 'r', 'e'] kw = true := by decide +kernel
+theorem kwNote_facts : ∀ kw ∈ kwNote, KwFactsG (lit "note") ['t', 'r', 'e', 'p'] kw = true := by decide +kernel
+
+theorem refAfterKw_append (r : RText) (post : Str) : refAfterKw r [] ++ post = refAfterKw r post := by
+  simp [refAfterKw, sideText]
+
+/-- a standalone reference in block form whose keyword is spelt `kw` -/
+def refEK (ap : Bool) (r : RText) (kw : Str) (hkw : KwFactsG (lit "ref") ['t'] kw = true) (hok : RTextOK r) : EForm ap where
+  pre := none
+  head := kw.headD 'R'
+  body := kw.tail ++ refAfterKw r []
+  elem := mkRefElem r
+  headOK := by
+    obtain ⟨_, _, _, k, ks, rfl, h1, h2, h3, _⟩ := kwFactsG_elim _ _ kw hkw
+    exact ⟨h1, h2, h3⟩
+  headAscii := by
+    obtain ⟨_, _, _, k, ks, rfl, _, _, _, h4, _⟩ := kwFactsG_elim _ _ kw hkw
+    exact h4
+  preOK := trivial
+  noTab := by
+    obtain ⟨_, _, h0, k, ks, rfl, _⟩ := kwFactsG_elim _ _ kw hkw
+    intro c hc
+    simp only [List.headD_cons, List.tail_cons, List.mem_cons, List.mem_append] at hc
+    rcases hc with rfl | hc | hc
+    · exact h0 _ (by simp)
+    · exact h0 _ (by simp [hc])
+    · have := refTextP_no_tab r [] hok (by simp) c
+      apply this
+      show c ∈ 'R' :: 'e' :: 'f' :: refAfterKw r []
+      simp [hc]
+  parse := by
+    intro c c0 post hb hr0 hp0 _ hends
+    obtain ⟨hlen, hswc, _, k, ks, rfl, hk1, _, _, _, hoth⟩ := kwFactsG_elim _ _ kw hkw
+    have hr0' : c0.rest = (k :: ks) ++ refAfterKw r post := by
+      rw [hr0]; simp [refAfterKw_append]
+    have hN0 : Next c0 k _ := skipWs_rest_head c0 k _ (by rw [hr0']; rfl) hk1
+    have htab : tableRule ap c = .fail :=
+      tableRule_fail' ap c c0 [] hb (ckw_fail _ c0 _ _ hN0 (swc_head_false k _ "table" 't' _ rfl (hoth 't' (by simp))))
+    obtain ⟨c1, hk, hr1, hp1⟩ := clit_ok "ref" c0 (k :: ks) (refAfterKw r post)
+      (skipWs_rest_head c0 k _ (by rw [hr0']; rfl) hk1) (by rw [hlen]; rfl) (startsWithCaseless_append _ _ _ hswc) hp0
+    obtain ⟨c9, hrule, hQ⟩ := refRule_from c c0 c1 r post (After post) hb hk hr1 hp1 hok
+      (fun c7 hr7 hp7 => refEnd_afterE c7 post hends hr7 hp7)
+    refine ⟨c9, ?_, hQ⟩
+    unfold element alt mkRefElem
+    simp only [bind, pbind, htab, hrule, pure, ppure]
+
+theorem refEK_elem (ap : Bool) (r : RText) (kw : Str) (hkw : KwFactsG (lit "ref") ['t'] kw = true) (hok : RTextOK r) :
+    (refEK ap r kw hkw hok).elem = (refE ap r hok).elem := rfl
+
+/-- the project with its keyword spelt `kw` -/
+def projectEK (ap : Bool) (n : Str) (items : List (Str × Str)) (kw : Str)
+    (hkw : KwFactsG (lit "project") ['t', 'r', 'e'] kw = true) (h : ProjectOK n items) : EForm ap where
+  pre := none
+  head := kw.headD 'P'
+  body := kw.tail ++ ' ' :: '"' :: (n ++ '"' :: ' ' :: '{' :: '\n' :: (fieldLines items ++ ['}']))
+  elem := Bp.Elem.project (projectBpOf n items)
+  headOK := by
+    obtain ⟨_, _, _, k, ks, rfl, h1, h2, h3, _⟩ := kwFactsG_elim _ _ kw hkw
+    exact ⟨h1, h2, h3⟩
+  headAscii := by
+    obtain ⟨_, _, _, k, ks, rfl, _, _, _, h4, _⟩ := kwFactsG_elim _ _ kw hkw
+    exact h4
+  preOK := trivial
+  noTab := by
+    obtain ⟨_, _, h0, k, ks, rfl, _⟩ := kwFactsG_elim _ _ kw hkw
+    intro c hc
+    have e : (k :: ks).headD 'P' :: ((k :: ks).tail ++ ' ' :: '"' :: (n ++ '"' :: ' ' :: '{' :: '\n' :: (fieldLines items ++ ['}'])))
+        = (k :: ks) ++ [' ', '"'] ++ n ++ ['"', ' ', '{', '\n'] ++ fieldLines items ++ ['}'] := by simp
+    rw [e] at hc
+    simp only [List.mem_append] at hc
+    rcases hc with ((((h' | h') | h') | h') | h') | h'
+    · exact h0 c h'
+    · exact (by decide : ∀ c ∈ [' ', '"'], c ≠ '\t') c h'
+    · exact (h.name c h').2.2.2
+    · exact (by decide : ∀ c ∈ ['"', ' ', '{', '\n'], c ≠ '\t') c h'
+    · exact fieldLines_no_tab items h.keys h.values c h'
+    · exact (by decide : ∀ c ∈ ['}'], c ≠ '\t') c h'
+  parse := by
+    intro c c0 post hb hr0 hp0 _ hends
+    obtain ⟨hlen, hswc, _, k, ks, rfl, hk1, _, _, _, hoth⟩ := kwFactsG_elim _ _ kw hkw
+    have hr0' : c0.rest = (k :: ks) ++ (' ' :: '"' :: (n ++ '"' :: ' ' :: '{' :: '\n' :: (fieldLines items ++ '}' :: post))) := by
+      rw [hr0]; simp
+    have hN0 : Next c0 k _ := skipWs_rest_head c0 k _ (by rw [hr0']; rfl) hk1
+    have htab : tableRule ap c = .fail :=
+      tableRule_fail' ap c c0 [] hb (ckw_fail _ c0 _ _ hN0 (swc_head_false k _ "table" 't' _ rfl (hoth 't' (by simp))))
+    have href : refRule c = .fail :=
+      refRule_fail' c c0 [] hb (clit_fail _ c0 _ _ hN0 (swc_head_false k _ "ref" 'r' _ rfl (hoth 'r' (by simp))))
+    have henum : enumRule c = .fail :=
+      enumRule_fail' c c0 [] hb (clit_fail _ c0 _ _ hN0 (swc_head_false k _ "enum" 'e' _ rfl (hoth 'e' (by simp))))
+    have hgrp : tableGroupRule c = .fail :=
+      tableGroupRule_fail' c c0 [] hb (clit_fail _ c0 _ _ hN0 (swc_head_false k _ "TableGroup" 'T' _ rfl (by
+        have := hoth 't' (by simp); simpa [pyUpper1, asciiUpper] using this)))
+    obtain ⟨c1, hk, hr1, hp1⟩ := clit_ok "project" c0 (k :: ks) _
+      (skipWs_rest_head c0 k _ (by rw [hr0']; rfl) hk1) (by rw [hlen]; rfl) (startsWithCaseless_append _ _ _ hswc) hp0
+    obtain ⟨c9, hrule, hQ⟩ := projectRule_from c c0 c1 n items post (After post) hb hk hr1 hp1 h.name h.keys h.values h.distinct
+      (fun c7 hr7 hp7 => refEnd_afterE c7 post hends hr7 hp7)
+    refine ⟨c9, ?_, hQ⟩
+    unfold element alt
+    simp only [bind, pbind, htab, href, henum, hgrp, hrule, pure, ppure]
+
+theorem projectEK_elem (ap : Bool) (n : Str) (items : List (Str × Str)) (kw : Str)
+    (hkw : KwFactsG (lit "project") ['t', 'r', 'e'] kw = true) (h : ProjectOK n items) :
+    (projectEK ap n items kw hkw h).elem = (projectE ap n items h).elem := rfl
+
+/-- a sticky note with its keyword spelt `kw` -/
+def stickyEK (ap : Bool) (s : Sticky) (kw : Str) (hkw : KwFactsG (lit "note") ['t', 'r', 'e', 'p'] kw = true) (hs : StickyOK s) :
+    EForm ap where
+  pre := none
+  head := kw.headD 'N'
+  body := kw.tail ++ ' ' :: (s.name ++ tail1 s.text)
+  elem := mkStickyElem s
+  headOK := by
+    obtain ⟨_, _, _, k, ks, rfl, h1, h2, h3, _⟩ := kwFactsG_elim _ _ kw hkw
+    exact ⟨h1, h2, h3⟩
+  headAscii := by
+    obtain ⟨_, _, _, k, ks, rfl, _, _, _, h4, _⟩ := kwFactsG_elim _ _ kw hkw
+    exact h4
+  preOK := trivial
+  noTab := by
+    obtain ⟨_, _, h0, k, ks, rfl, _⟩ := kwFactsG_elim _ _ kw hkw
+    intro c hc
+    simp only [List.headD_cons, List.tail_cons, List.mem_cons, List.mem_append] at hc
+    rcases hc with rfl | hc | hc
+    · exact h0 _ (by simp)
+    · exact h0 _ (by simp [hc])
+    · have := stickyText_no_tab s.name s.text hs.2.1 hs.2.2.1 c
+      apply this
+      show c ∈ 'N' :: 'o' :: 't' :: 'e' :: ' ' :: (s.name ++ tail1 s.text)
+      rcases hc with rfl | hc
+      · simp
+      · simp [hc]
+  parse := by
+    intro c c0 post hb hr0 hp0 _ hends
+    obtain ⟨hlen, hswc, _, k, ks, rfl, hk1, _, _, _, hoth⟩ := kwFactsG_elim _ _ kw hkw
+    obtain ⟨n0, ns, hname⟩ : ∃ n0 ns, s.name = n0 :: ns := by
+      cases hn : s.name with
+      | nil => exact absurd hn hs.1
+      | cons a as => exact ⟨a, as, rfl⟩
+    have hr0' : c0.rest = (k :: ks) ++ (' ' :: ((n0 :: ns) ++ ' ' :: '{' :: '\n' :: ' ' :: ' ' :: ' ' :: ' ' ::
+        '\'' :: (prepareTextForDbml s.text ++ '\'' :: '\n' :: '}' :: post))) := by
+      rw [hr0, hname]; simp [tail1, tail2, tail3]
+    have hN0 : Next c0 k _ := skipWs_rest_head c0 k _ (by rw [hr0']; rfl) hk1
+    have htab : tableRule ap c = .fail :=
+      tableRule_fail' ap c c0 [] hb (ckw_fail _ c0 _ _ hN0 (swc_head_false k _ "table" 't' _ rfl (hoth 't' (by simp))))
+    have href : refRule c = .fail :=
+      refRule_fail' c c0 [] hb (clit_fail _ c0 _ _ hN0 (swc_head_false k _ "ref" 'r' _ rfl (hoth 'r' (by simp))))
+    have henum : enumRule c = .fail :=
+      enumRule_fail' c c0 [] hb (clit_fail _ c0 _ _ hN0 (swc_head_false k _ "enum" 'e' _ rfl (hoth 'e' (by simp))))
+    have hgrp : tableGroupRule c = .fail :=
+      tableGroupRule_fail' c c0 [] hb (clit_fail _ c0 _ _ hN0 (swc_head_false k _ "TableGroup" 'T' _ rfl (by
+        have := hoth 't' (by simp); simpa [pyUpper1, asciiUpper] using this)))
+    have hprj : projectRule c = .fail :=
+      projectRule_fail' c c0 [] hb (clit_fail _ c0 _ _ hN0 (swc_head_false k _ "project" 'p' _ rfl (hoth 'p' (by simp))))
+    have h1 : C13.oneLine s.text = true := oneLine_of_plain' s.text hs.2.2.1
+    obtain ⟨c1, hk, hr1, hp1⟩ := clit_ok "note" c0 (k :: ks) _
+      (skipWs_rest_head c0 k _ (by rw [hr0']; rfl) hk1) (by rw [hlen]; rfl) (startsWithCaseless_append _ _ _ hswc) hp0
+    obtain ⟨c9, hrule, hQ⟩ := stickyNoteRule_from c c0 c1 n0 ns s.text post (After post) hb hk hr1 hp1
+      (by rw [← hname]; exact hs.2.1) h1 hs.2.2.2.1
+      (fun c7 hr7 hp7 => endRule_afterE c7 post hends hr7 hp7)
+    refine ⟨c9, ?_, hQ⟩
+    unfold element alt mkStickyElem
+    rw [← hname] at hrule
+    simp only [bind, pbind, htab, href, henum, hgrp, hprj, hrule, pure, ppure]
+
+theorem stickyEK_elem (ap : Bool) (s : Sticky) (kw : Str) (hkw : KwFactsG (lit "note") ['t', 'r', 'e', 'p'] kw = true)
+    (hs : StickyOK s) : (stickyEK ap s kw hkw hs).elem = (stickyE ap s hs).elem := rfl
+
+/-! ### the keyword `TableGroup` in any case -/
+
+def kwGroup : List Str := caseVariants (lit "tablegroup")
+
+/-- the first five letters spell `table` and a keyword character follows: `CaselessKeyword('table')` does not match there -/
+def KwGroupShape (kw : Str) : Bool :=
+  match kw with
+  | _ :: _ :: _ :: _ :: _ :: g :: _ => isKwIdent g
+  | _ => false
+
+theorem kwGroup_facts : ∀ kw ∈ kwGroup, (KwFactsG (lit "TableGroup") ['r', 'e'] kw && KwGroupShape kw) = true := by decide +kernel
+
+theorem ckw_table_fail_kwIdent (c0 : Cur) (a b c d e g : Char) (r : Str)
+    (hr : (skipWs c0).rest = a :: b :: c :: d :: e :: g :: r) (hg : isKwIdent g = true) : ckw "table" c0 = .fail := by
+  unfold ckw
+  simp only [hr]
+  have hadv : (advance (skipWs c0) "table".length).rest = g :: r := by
+    rw [C13.advance_rest, hr]; rfl
+  simp only [hadv]
+  simp [hg]
+
+/-- a table group with its keyword spelt `kw` -/
+def groupEK (ap : Bool) (g : Str) (ns : List Str) (kw : Str)
+    (hkw : (KwFactsG (lit "TableGroup") ['r', 'e'] kw && KwGroupShape kw) = true) (hg : NameOK g) (hns : ∀ n ∈ ns, NameOK n) :
+    EForm ap where
+  pre := none
+  head := kw.headD 'T'
+  body := kw.tail ++ ' ' :: '"' :: (g ++ '"' :: ' ' :: '{' :: '\n' :: (memberLines ns ++ ['}']))
+  elem := Bp.Elem.group (groupBpOf g ns)
+  headOK := by
+    obtain ⟨_, _, _, k, ks, rfl, h1, h2, h3, _⟩ := kwFactsG_elim _ _ kw (by simp only [Bool.and_eq_true] at hkw; exact hkw.1)
+    exact ⟨h1, h2, h3⟩
+  headAscii := by
+    obtain ⟨_, _, _, k, ks, rfl, _, _, _, h4, _⟩ := kwFactsG_elim _ _ kw (by simp only [Bool.and_eq_true] at hkw; exact hkw.1)
+    exact h4
+  preOK := trivial
+  noTab := by
+    obtain ⟨_, _, h0, k, ks, rfl, _⟩ := kwFactsG_elim _ _ kw (by simp only [Bool.and_eq_true] at hkw; exact hkw.1)
+    intro c hc
+    simp only [List.headD_cons, List.tail_cons, List.mem_cons, List.mem_append] at hc
+    rcases hc with rfl | hc | hc
+    · exact h0 _ (by simp)
+    · exact h0 _ (by simp [hc])
+    · apply (groupE ap g ns hg hns).noTab c
+      show c ∈ 'T' :: (groupText g ns).tail
+      simp only [groupText, List.tail_cons, List.mem_cons]
+      right; right; right; right; right; right; right; right; right; right
+      simpa using hc
+  parse := by
+    intro c c0 post hb hr0 hp0 _ hends
+    have hkw1 : KwFactsG (lit "TableGroup") ['r', 'e'] kw = true := by simp only [Bool.and_eq_true] at hkw; exact hkw.1
+    have hkw2 : KwGroupShape kw = true := by simp only [Bool.and_eq_true] at hkw; exact hkw.2
+    obtain ⟨hlen, hswc, _, k, ks, rfl, hk1, _, _, _, hoth⟩ := kwFactsG_elim _ _ kw hkw1
+    have hr0' : c0.rest = (k :: ks) ++ (' ' :: '"' :: (g ++ '"' :: ' ' :: '{' :: '\n' :: (memberLines ns ++ '}' :: post))) := by
+      rw [hr0]; simp
+    have hN0 : Next c0 k _ := skipWs_rest_head c0 k _ (by rw [hr0']; rfl) hk1
+    have htab : tableRule ap c = .fail := by
+      obtain ⟨b1, b2, b3, b4, g5, r6, rfl⟩ : ∃ b1 b2 b3 b4 g5 r6, ks = b1 :: b2 :: b3 :: b4 :: g5 :: r6 := by
+        unfold KwGroupShape at hkw2
+        match ks, hkw2 with
+        | b1 :: b2 :: b3 :: b4 :: g5 :: r6, _ => exact ⟨b1, b2, b3, b4, g5, r6, rfl⟩
+      have hg5 : isKwIdent g5 = true := by simpa [KwGroupShape] using hkw2
+      exact tableRule_fail' ap c c0 [] hb (ckw_table_fail_kwIdent c0 k b1 b2 b3 b4 g5 _ (by
+        rw [show (skipWs c0).rest = _ from hN0]; rfl) hg5)
+    have href : refRule c = .fail :=
+      refRule_fail' c c0 [] hb (clit_fail _ c0 _ _ hN0 (swc_head_false k _ "ref" 'r' _ rfl (hoth 'r' (by simp))))
+    have henum : enumRule c = .fail :=
+      enumRule_fail' c c0 [] hb (clit_fail _ c0 _ _ hN0 (swc_head_false k _ "enum" 'e' _ rfl (hoth 'e' (by simp))))
+    obtain ⟨c1, hk, hr1, hp1⟩ := clit_ok "TableGroup" c0 (k :: ks) _
+      (skipWs_rest_head c0 k _ (by rw [hr0']; rfl) hk1) (by rw [hlen]; rfl) (startsWithCaseless_append _ _ _ hswc) hp0
+    obtain ⟨c9, hrule, hQ⟩ := tableGroupRule_from c c0 c1 g ns post (After post) hb hk hr1 hp1 hg hns
+      (fun c7 hr7 hp7 => endRule_afterE c7 post hends hr7 hp7)
+    refine ⟨c9, ?_, hQ⟩
+    unfold element alt
+    simp only [bind, pbind, htab, href, henum, hrule, pure, ppure]
+
+theorem groupEK_elem (ap : Bool) (g : Str) (ns : List Str) (kw : Str)
+    (hkw : (KwFactsG (lit "TableGroup") ['r', 'e'] kw && KwGroupShape kw) = true) (hg : NameOK g) (hns : ∀ n ∈ ns, NameOK n) :
+    (groupEK ap g ns kw hkw hg hns).elem = (groupE ap g ns hg hns).elem := rfl
+
+example : lit "TABLEGROUP" ∈ kwGroup ∧ lit "tablegroup" ∈ kwGroup ∧ kwGroup.length = 1024 := by decide +kernel
+
+example : lit "REF" ∈ kwRef ∧ lit "project" ∈ kwProject ∧ lit "NOTE" ∈ kwNote := by decide +kernel
 
 /-- **keyword case of `Enum` and `Table` and the spelling of table names are inert**: the enums and tables of a covered
     document, each enum written with its own spelling `p.2` of its keyword, each table with its own spelling `p.2.1` of its
